@@ -24,7 +24,7 @@ Init == \/ /\ mode = "tail" /\ N \in 3 .. TailNMax /\ k \in -(N - 1) .. (N - 1) 
         \/ /\ mode = "lat" /\ N \in LatN /\ k \in 0 .. 4 * (N - 1) - 1 /\ j = -1
 Next == /\ j = -1
         /\ \/ mode = "tail" /\ j' \in 0 .. 255
-           \/ mode = "pairs" /\ j' \in 1 .. 2 ^ N - 1
+           \/ mode = "pairs" /\ j' \in 0 .. 2 ^ N - 1
            \/ mode = "shift" /\ j' \in 0 .. 2 * (N - 2)
            \/ mode = "lat" /\ j' \in 0 .. 4 * (N - 1) - 1
         /\ UNCHANGED <<mode, N, k>>
@@ -49,6 +49,11 @@ TailB == LET ex == j % 4
 PairsB == LET a == FromInt(k)  b == FromInt(j)
           IN /\ AlgoMulE2(N, a, b) = PMul(N, 2, a, b)
              /\ AlgoMulE2(N, Neg(N, a), b) = PMul(N, 2, Neg(N, a), b)
+             /\ AlgoAddE2(N, a, b) = PAdd(N, 2, a, b) /\ AlgoAddE2(N, Neg(N, a), b) = PAdd(N, 2, Neg(N, a), b)
+             /\ AlgoSubE2(N, a, b) = PSub(N, 2, a, b) /\ AlgoSubE2(N, Neg(N, a), b) = PSub(N, 2, Neg(N, a), b)
+             /\ AlgoAddE2(N, <<>>, b) = PAdd(N, 2, <<>>, b) /\ AlgoAddE2(N, b, <<>>) = PAdd(N, 2, b, <<>>)
+             /\ AlgoSubE2(N, <<>>, b) = PSub(N, 2, <<>>, b) /\ AlgoSubE2(N, b, <<>>) = PSub(N, 2, b, <<>>)
+             /\ AlgoMulE2(N, <<>>, b) = PMul(N, 2, <<>>, b) /\ AlgoMulE2(N, b, <<>>) = PMul(N, 2, b, <<>>)
              /\ (AddSamePre(N, a, b) => AlgoAddSameE2(N, a, b) = PAdd(N, 2, a, b))
              /\ (AddSamePre(N, Neg(N, a), b) => AlgoAddSameE2(N, Neg(N, a), b) = PAdd(N, 2, Neg(N, a), b))
 
@@ -70,6 +75,8 @@ LatB == LET a == LatPat(k)  b == LatPat(j)
         IN /\ AlgoMulE2(N, a, b) = PMul(N, 2, a, b)
            /\ AlgoMulE2(N, Neg(N, a), b) = PMul(N, 2, Neg(N, a), b)
            /\ AlgoAddSameE2(N, a, b) = PAdd(N, 2, a, b)
+           /\ AlgoSubE2(N, a, b) = PSub(N, 2, a, b)
+           /\ AlgoAddE2(N, Neg(N, a), b) = PAdd(N, 2, Neg(N, a), b)
            /\ AlgoAddSameE2(N, Neg(N, a), Neg(N, b)) = PAdd(N, 2, Neg(N, a), Neg(N, b))
 LatOk == j = -1 \/ mode # "lat" \/ LatB
 
